@@ -14,7 +14,13 @@
    select <sizes a:size|a:x for 1,2,3> <data> -> <algos of compressions> <their sizes> <default macro value>
         (lzss by the model compressor; zlib/bz2/zstd replaced by strings of the given sizes)
    module <fxo> <fxw> <msvc> <py314> <macro|N> <lits k:raw:body / ...> -> M <objs s:cps|b:bytes / ...> | NONE
-   pyobjs <lits> -> same format from py_object (X for none) *)
+   pyobjs <lits> -> same format from py_object (X for none)
+   bigtab <fxw> <texts> <bstrs> -> B <md5 data> <len data> <md5 lzss> <len lzss> <rt> <bad> <nlit> <refs>
+        the table-level theorem instance on a (large) table: data = t_data (gen_table ...), lzss = model
+        compressor on it, rt = 1 if lzss_unpack gives back (texts, bstrs), bad = number of references r of
+        the token stream with ref_fields (bytes r) <> (form_of r, eo r, len r), nlit = literal tokens,
+        refs = n:eo:len,... (n = encoded size 2|3) of every back reference | ENCERR | CERR | IndexError
+   forms <eo:len,...> -> 7|9|14|N per pair (form_of) *)
 let nl = nlist_of_string
 let snl = string_of_nlist
 let lol s = if s = "_" then [] else List.map nl (String.split_on_char '/' s)
@@ -83,6 +89,34 @@ let handle = function
       let ls = lits_of lits in
       if ls = [] then "_" else
       String.concat "/" (List.map (fun l -> match py_object l with Some o -> sobj o | None -> "X") ls)
+  | ["bigtab"; fx; t; b] ->
+      let texts = lol t and bstrs = lol b in
+      (match gen_table (bool_of_string fx) texts bstrs with
+       | GEncodeError -> "ENCERR" | GCompileError -> "CERR"
+       | GOk tb ->
+           (* compress data = Some (pack toks) for non-empty data, by definition of M_LZSS.compress *)
+           (match (if tb.t_data = [] then None else Some ()), tokenize (List.map (fun v -> z_of_zt (zt_of_n v)) tb.t_data) with
+            | Some (), Some toks ->
+                let c = List.map (fun v -> n_of_zt (zt_of_z v)) (pack toks) in
+                let rt = (lzss_unpack tb c = Some (texts, bstrs)) in
+                let nlit = List.length (List.filter (function TLit _ -> true | _ -> false) toks) in
+                let bad = List.length (List.filter (function
+                    | TLit _ -> false
+                    | TRef (eo, len, bs) ->
+                        (match ref_fields bs, form_of eo len with
+                         | Some (((f, eo'), len'), []), Some f' -> not (f = f' && eo' = eo && len' = len)
+                         | _, _ -> true)) toks) in
+                let refs = List.map (fun ((n, eo), len) ->
+                    string_of_z n ^ ":" ^ string_of_z eo ^ ":" ^ string_of_z len) (refs_of toks) in
+                Printf.sprintf "B %s %d %s %d %s %d %d %s" (md5 tb.t_data) (List.length tb.t_data)
+                  (md5 c) (List.length c) (string_of_bool rt) bad nlit
+                  (if refs = [] then "-" else String.concat "," refs)
+            | _, _ -> "IndexError"))
+  | ["forms"; ps] ->
+      String.concat "," (List.map (fun p -> match String.split_on_char ':' p with
+        | [eo; len] -> (match form_of (z_of_string eo) (z_of_string len) with
+            | Some F7 -> "7" | Some F9 -> "9" | Some F14 -> "14" | None -> "N")
+        | _ -> failwith "forms") (split_on ',' ps))
   | _ -> "!ERR badcmd"
 
 let () = main_loop handle
